@@ -317,6 +317,60 @@ def as_comprehension(fn_node, expr):
     return None
 
 
+def follow_decided_env(cfg, truth_of, mode=N):
+    """Like follow_decided, but every terminal comes with the plain local bindings made on the way to it: [(node, {name: expr})]
+    (`target = fn.asynq` ... `return target(*args)`); a name bound to something that runs (a call) is dropped from the bindings."""
+    from collections import deque
+    seen = set()
+    entry = cfg.entry.id if isinstance(cfg.entry, Node) else cfg.entry
+    dq = deque([(entry, (), ())])
+    table = {}
+    ends = []
+    while dq:
+        u, fl, env = dq.popleft()
+        if (u, fl, env) in seen:
+            continue
+        seen.add((u, fl, env))
+        nd = cfg.nodes[u]
+        flags = dict(fl)
+        envd = dict(env)
+        only = None
+        if nd.kind == "test":
+            t = truth_of(nd.ast, flags)
+            if t is not None:
+                only = "T" if t else "F"
+        elif nd.kind == "stmt" and isinstance(nd.ast, ast.Assign) and len(nd.ast.targets) == 1 and isinstance(nd.ast.targets[0], ast.Name):
+            nm = nd.ast.targets[0].id
+            t = truth_of(nd.ast.value, flags) if isinstance(nd.ast.value, (ast.Call, ast.Compare, ast.UnaryOp, ast.Constant, ast.BoolOp)) else None
+            if t is not None:
+                flags[nm] = t
+            else:
+                flags.pop(nm, None)
+            v = nd.ast.value
+            plain = not any(isinstance(y, ast.Call) and not (isinstance(y.func, ast.Name) and y.func.id == "getattr") for y in ast.walk(v)) \
+                and not any(isinstance(y, (ast.Yield, ast.YieldFrom, ast.Await)) for y in ast.walk(v))
+            # bindings that mention the rebound name are stale
+            for k_ in [k_ for k_, i_ in envd.items() if any(isinstance(y, ast.Name) and y.id == nm for y in ast.walk(table[i_]))]:
+                envd.pop(k_)
+            if plain:
+                table[id(v)] = v
+                envd[nm] = id(v)
+            else:
+                envd.pop(nm, None)
+        if nd.kind == "stmt" and isinstance(nd.ast, (ast.Return, ast.Raise)):
+            ends.append((nd.ast, dict((k_, table[i_]) for k_, i_ in envd.items())))
+            continue
+        nfl = tuple(sorted(flags.items()))
+        nenv = tuple(sorted(envd.items()))
+        for e in cfg.succ[u]:
+            if not cfg.edge_ok(e, mode):
+                continue
+            if only is not None and e.label in ("T", "F") and e.label != only:
+                continue
+            dq.append((e.dst, nfl, nenv))
+    return ends
+
+
 def follow_decided(cfg, truth_of, mode=N):
     """Terminal statements (Return / Raise ast nodes) reachable from the entry when every test that `truth_of(expr, flags)`
     decides (returns True/False; None = undecided, both edges) is followed along the decided edge only.  Boolean locals assigned
